@@ -100,6 +100,20 @@ func (f fakeFull) ReadFrom(r io.Reader) (int64, error) {
 	return int64(n), err
 }
 
+// fakeNearFull has everything fakeFull has except ReadFrom.
+type fakeNearFull struct{ *fakeRW }
+
+func (f fakeNearFull) Flush()                   { f.flushes++ }
+func (f fakeNearFull) CloseNotify() <-chan bool { return make(chan bool) }
+func (f fakeNearFull) Hijack() (net.Conn, *bufio.ReadWriter, error) {
+	return nil, nil, errors.New("no hijack")
+}
+
+// plainReader hides every method of the reader but Read (no WriteTo short cut for io.Copy).
+type plainReader struct{ r io.Reader }
+
+func (p plainReader) Read(b []byte) (int, error) { return p.r.Read(b) }
+
 func runProxy(c *PCase) (string, bool) {
 	base := &fakeRW{h: http.Header{}, room: c.Accept}
 	var under http.ResponseWriter = base
@@ -108,6 +122,8 @@ func runProxy(c *PCase) (string, bool) {
 		under = fakeFlusher{base}
 	case "full":
 		under = fakeFull{base}
+	case "nearfull":
+		under = fakeNearFull{base}
 	}
 	gotStatus, gotSize, calls := -1, -1, 0
 	h := hlog.AccessHandler(func(r *http.Request, status, size int, d time.Duration) {
@@ -125,6 +141,13 @@ func runProxy(c *PCase) (string, bool) {
 					rf.ReadFrom(bytes.NewReader(make([]byte, op.N)))
 				} else {
 					io.Copy(w, bytes.NewReader(make([]byte, op.N)))
+				}
+			case "rfplain":
+				// the body comes from a source that is nothing but an io.Reader (a pipe, a decompressor)
+				if rf, ok := w.(io.ReaderFrom); ok {
+					rf.ReadFrom(plainReader{bytes.NewReader(make([]byte, op.N))})
+				} else {
+					io.Copy(w, plainReader{bytes.NewReader(make([]byte, op.N))})
 				}
 			case "flush":
 				if fl, ok := w.(http.Flusher); ok {
@@ -162,8 +185,8 @@ func runProxy(c *PCase) (string, bool) {
 			if !sent {
 				wantStatus, sent = op.N, true
 			}
-		case "w", "rf":
-			if op.K == "rf" && op.N == 0 && c.Caps != "full" {
+		case "w", "rf", "rfplain":
+			if op.K != "w" && op.N == 0 && c.Caps != "full" {
 				continue // io.Copy of an empty reader makes no call on the ResponseWriter
 			}
 			if !sent {
@@ -194,9 +217,9 @@ func TestProxyExhaustive(t *testing.T) {
 	if ev.Thorough() {
 		maxLen = 5
 	}
-	alpha := []POp{{"wh", 200}, {"wh", 404}, {"wh", 600}, {"wh", 101}, {"w", 3}, {"w", 0}, {"rf", 5}, {"flush", 0}, {"hijack", 0}}
+	alpha := []POp{{"wh", 200}, {"wh", 404}, {"wh", 600}, {"wh", 101}, {"w", 3}, {"w", 0}, {"rf", 5}, {"rfplain", 6}, {"flush", 0}, {"hijack", 0}}
 	var n, nt int64
-	for _, caps := range []string{"basic", "flusher", "full"} {
+	for _, caps := range []string{"basic", "flusher", "full", "nearfull"} {
 		for _, acc := range []int{-1, 0, 4, 7} {
 			ops := make([]POp, maxLen)
 			var recur func(d int)
@@ -243,16 +266,16 @@ func TestProxyExhaustive(t *testing.T) {
 
 func TestProxyRapid(t *testing.T) {
 	rapid.Check(t, func(rt *rapid.T) {
-		c := &PCase{Caps: rapid.SampledFrom([]string{"basic", "flusher", "full"}).Draw(rt, "caps"), Accept: rapid.SampledFrom([]int{-1, -1, 0, 1, 10, 100, 5000}).Draw(rt, "accept")}
+		c := &PCase{Caps: rapid.SampledFrom([]string{"basic", "flusher", "full", "nearfull"}).Draw(rt, "caps"), Accept: rapid.SampledFrom([]int{-1, -1, 0, 1, 10, 100, 5000}).Draw(rt, "accept")}
 		n := rapid.IntRange(0, 20).Draw(rt, "n")
 		for i := 0; i < n; i++ {
-			k := rapid.SampledFrom([]string{"wh", "w", "w", "rf", "flush", "hijack", "closenotify", "header"}).Draw(rt, "k")
+			k := rapid.SampledFrom([]string{"wh", "w", "w", "rf", "rfplain", "flush", "hijack", "closenotify", "header"}).Draw(rt, "k")
 
 			op := POp{K: k}
 			switch k {
 			case "wh":
 				op.N = rapid.SampledFrom([]int{200, 201, 204, 301, 304, 400, 404, 500, 503, 101, 103, 599, 600, 799, 999}).Draw(rt, "code")
-			case "w", "rf":
+			case "w", "rf", "rfplain":
 				op.N = rapid.SampledFrom([]int{0, 1, 2, 100, 4096, 70000}).Draw(rt, "bytes")
 			}
 			c.Ops = append(c.Ops, op)
